@@ -34,7 +34,7 @@ from __future__ import annotations
 
 import ast
 import unicodedata
-from dataclasses import dataclass, field
+from dataclasses import dataclass
 
 import sympy as sp
 
@@ -817,7 +817,9 @@ def _backend_facts(rep: Report, ix, tag: str, fi: FuncInfo, full: bool) -> dict:
         mods = lam.modules
         okm = isinstance(mods, Tup) and len(mods.items) >= 1 and isinstance(mods.items[0], Snap)
         _ob(rep, "modules-order", ref, "lambdify-modules", okm, "the first entry of `modules` handed to lambdify is not the user-function namespace (earlier entries take priority)", line=line, tag=ctag)
+        _ob(rep, "namespace-fresh-copy", ref, "user-namespace", not it.promoted, f"{sorted(it.promoted)} is updated in place while the namespace is built: compiling changes the expression (functions passed for one compilation leak into the next one and into comparisons)", line=line, tag=ctag)
         if not okm:
+            facts["broken"] = True
             continue
         ns: Snap = mods.items[0]
         modnames = [m.value if isinstance(m, Const) else MefInterp._d(m) for m in mods.items[1:]]
@@ -933,6 +935,11 @@ def check_backends(rep: Report, ix) -> None:
     a, b = facts["numpy"], facts["numba"]
     pair = f"{a['ref']} <-> {b['ref']}"
     for ug in (False, True):
+        if a.get("broken") or b.get("broken"):
+            if not rep.findings:
+                raise AnalysisError(f"C11: no interpreted row for {pair}")
+            rep.note(f"sibling comparison {pair} skipped: one side already violates the modules-order rule")
+            break
         ra, rb = a.get(("row", ug)), b.get(("row", ug))
         if ra is None or rb is None:
             raise AnalysisError(f"C11: no interpreted row for {pair}")
@@ -948,7 +955,7 @@ def check_backends(rep: Report, ix) -> None:
             ok = ra[fld] == rb[fld]
             msg = f"{what} differs between the siblings {pair}: numpy {ra[fld]!r} vs numba {rb[fld]!r}"
             _ob(rep, rule, b["ref"], f"vs-numpy::{fld}", ok, msg, line=b["line"], tag=t, numpy=ra[fld], numba=rb[fld])
-    rep.sample({"table": "make_expression_function rows (single_arg=False, user_funcs given, constants present)", **{k: {kk: vv for kk, vv in v[("row", True)].items()} for k, v in facts.items()}})
+    rep.sample({"table": "make_expression_function rows (single_arg=False, user_funcs given, constants present)", **{k: dict(v[("row", True)]) for k, v in facts.items() if ("row", True) in v}})
     rep.sample({"table": "code emitted by the custom printer methods for an array [E0, E1, E2]", **{k: v["emitted"] for k, v in facts.items()}})
     rep.floor("make_expression_function siblings interpreted", len(facts), 2)
     rep.floor("custom printer methods evaluated", sum(len(v["emitted"]) for v in facts.values()), 2)
@@ -1206,7 +1213,6 @@ def check_derivatives(rep: Report, ix) -> None:
             if b is None:
                 raise _grammar(fi, nd.ast, f"return value `{ast.unparse(rv)[:60]}` is not an expression object")
             cname, bound = b
-            k = n_ret
             n_ret += 1
             role = f"return#{sum(1 for r in rows if 'return' in r)}"
             sig = bound.get("signature")
@@ -1340,7 +1346,6 @@ def check_from_expression(rep: Report, ix) -> None:
         fi = ix.func(rel, qn)
         rep.saw("functions", fi.ref)
         g = build_cfg(fi.node)
-        par = _parents(fi.node)
         args = [a.arg for a in fi.node.args.args]
         if len(args) < 3:
             raise _grammar(fi, fi.node, "expected (cls, grid, expression(s), ...)")
@@ -1429,7 +1434,7 @@ def check_from_expression(rep: Report, ix) -> None:
             wr = _index_chain(x.targets[0])
             val = resolve_expr(g, g.node_of(x), x.value, stop=[obj])
             uses = any(isinstance(y, ast.Call) and isinstance(y.func, ast.Name) and y.func.id == obj for y in ast.walk(val))
-            _ob(rep, "from-expression-components", fi.ref, "component-store", uses and wr[1:] == rd[1:] and len(rd) == 3, f"component text is read at {pexpr}{rd[1:]} but its values are written to {wr[0]}{wr[1:]}: tensor components are transposed / misplaced", line=x.lineno)
+            _ob(rep, "from-expression-components", fi.ref, "component-store", uses and wr[1:] == rd[1:] and len(rd) == 3, f"component text is read at {pexpr}[{']['.join(rd[1:])}] but its values are written to {wr[0]}[{']['.join(wr[1:])}]: tensor components are transposed / misplaced", line=x.lineno)
             # every index is a loop variable over range(grid.dim)
             lv = {}
             for lp in loops:
@@ -1437,7 +1442,7 @@ def check_from_expression(rep: Report, ix) -> None:
                     lv[lp.target.id] = ast.unparse(resolve_expr(g, g.node_of(lp), lp.iter))
             okr = len(set(rd[1:])) == len(rd[1:]) and all(lv.get(i) == f"range({grid}.dim)" for i in rd[1:])
             _ob(rep, "from-expression-components", fi.ref, "component-loop", okr, f"tensor indices {rd[1:]} run over {lv}, expected two distinct loops over range({grid}.dim)", line=ctor.lineno)
-            comp = f"{wr[0]}{wr[1:]} = value({pexpr}{rd[1:]})"
+            comp = f"{wr[0]}[{']['.join(wr[1:])}] = value({pexpr}[{']['.join(rd[1:])}])"
             _check_data_returned(rep, fi, g, wr[0])
         # the Cartesian helper constant
         cart = None
@@ -1454,10 +1459,13 @@ def check_from_expression(rep: Report, ix) -> None:
             raise AnalysisError(f"anchor vanished: `consts['cartesian'] = ...` in {fi.ref}")
         sib[fi.ref] = {"signature": s_res and s_res.replace(grid, "grid"), "coordinates": descr, "components": comp, "cartesian": cart, "ctor": {k: ast.unparse(v).replace(grid, "grid") for k, v in bound.items() if k != "expression"}}
     rep.sample({"table": "from_expression", **sib})
+    # siblings: the odd one out (against the majority of the three) is named
     refs = list(sib)
-    for other in refs[1:]:
-        a, b = sib[refs[0]]["ctor"], sib[other]["ctor"]
-        _ob(rep, "from-expression-siblings", other, "vs-scalar::ctor", a == b, f"ScalarExpression is configured differently from the sibling {refs[0]}: {b} vs {a}")
+    votes = {r: sum(sib[r]["ctor"] == sib[o]["ctor"] for o in refs) for r in refs}
+    major = max(refs, key=lambda r: votes[r])
+    for r in refs:
+        same = sib[r]["ctor"] == sib[major]["ctor"]
+        _ob(rep, "from-expression-siblings", r, "vs-siblings::ctor", same, f"ScalarExpression is configured differently from the sibling {major}: {sib[r]['ctor']} vs {sib[major]['ctor']}")
     rep.floor("from_expression constructors", n_ctor, 3)
     rep.floor("from_expression evaluation calls", n_calls, 4)
 
